@@ -563,6 +563,7 @@ func run(r *vk.Run) {
 	deadOnArrival(r)
 	joinEmptied(r)
 	subscribeStorm(r)
+	joinWhileWriterHoldsLock(r)
 	stress(r)
 	r.Require("forced-scenarios-run", 100)
 	r.Require("stress-runs", 100)
@@ -1486,6 +1487,127 @@ func subscribeStorm(r *vk.Run) {
 		}
 	}
 	r.Require("subscribe-storm-subscriptions", 1000)
+}
+
+// parkClock is a resource clock that, once armed, holds its next reading until released. Collection.Update reads
+// the clock inside its critical section (for the item's change time), so an armed clock parks a writer while it
+// holds the write lock, before it has taken its place in the publish order: a window no hook point covers.
+type parkClock struct {
+	armed   atomic.Bool
+	reached chan struct{}
+	release chan struct{}
+}
+
+func newParkClock() *parkClock {
+	return &parkClock{reached: make(chan struct{}), release: make(chan struct{})}
+}
+
+func (c *parkClock) Now() time.Time {
+	if c.armed.CompareAndSwap(true, false) {
+		close(c.reached)
+		<-c.release
+	}
+	return time.Unix(1, 0)
+}
+
+// joinWhileWriterHoldsLock (F12): a seeded subscription is opened while a writer is inside its critical section
+// (holding the write lock, the new item about to be stored). The subscriber waits for the lock; its seed then
+// contains the item, so the item's ADD event is not for it. A lossy subscriber that reads late then sees the item
+// deleted: its folded view equals List.
+func joinWhileWriterHoldsLock(r *vk.Run) {
+	idx := 0
+	for _, kind := range []string{"pull", "pullid"} {
+		for _, bp := range []bool{false, true} {
+			idx++
+			if !r.Mine(idx) {
+				continue
+			}
+			pc := newParkClock()
+			col := resource.NewCollection(resource.WithClock(pc), resource.WithInitialRecord("k", &tat{DefaultString: "k#0", DefaultInt32: 1}))
+			ctx, cancel := context.WithCancel(context.Background())
+			pc.armed.Store(true)
+			t1 := vk.Go(func() { col.Add("x", &tat{DefaultString: "x#1", DefaultInt32: 2}) })
+			<-pc.reached
+			var mu sync.Mutex
+			view := map[string]*tat{}
+			var log []string
+			var chPull <-chan *resource.CollectionChange
+			var chID <-chan *resource.ValueChange
+			ts := vk.Go(func() {
+				if kind == "pull" {
+					chPull = col.Pull(ctx, resource.WithBackpressure(bp))
+				} else {
+					chID = col.PullID(ctx, "x", resource.WithBackpressure(bp))
+				}
+			})
+			vk.Quiesce()
+			close(pc.release)
+			vk.Quiesce()
+			ts.Wait()
+			consume := func() {
+				if kind == "pull" {
+					for e := range chPull {
+						mu.Lock()
+						log = append(log, fmt.Sprintf("%s %s", e.ChangeType, e.Id))
+						if e.ChangeType == types.ChangeType_REMOVE {
+							delete(view, e.Id)
+						} else {
+							view[e.Id] = asTat(e.NewValue)
+						}
+						mu.Unlock()
+					}
+					return
+				}
+				for e := range chID {
+					mu.Lock()
+					log = append(log, "VALUE "+vk.JSON(e.Value))
+					view["x"] = asTat(e.Value)
+					mu.Unlock()
+				}
+				mu.Lock()
+				delete(view, "x")
+				log = append(log, "closed")
+				mu.Unlock()
+			}
+			if bp {
+				go consume() // a backpressured reader has to keep reading or the writers wait for it
+			}
+			t2 := vk.Go(func() {
+				col.Delete("x")
+				col.Add("zz", &tat{DefaultString: "zz#1", DefaultInt32: 3})
+			})
+			vk.Quiesce()
+			if !bp {
+				go consume() // the lossy reader starts late: everything so far met in the lossy stage
+			}
+			gs, ok := r.MustQuiesce("c03-join-writer-lock")
+			if !ok {
+				cancel()
+				return
+			}
+			r.Eval(1)
+			r.Count("join-while-writer-holds-lock-scenarios", 1)
+			r.Distinct(fmt.Sprintf("joinlock|%s|%v", kind, bp))
+			mode := map[bool]string{true: "bp", false: "lossy"}[bp]
+			key := "C03/fold/" + kind + "/" + mode + "/join-while-writer-holds-lock"
+			replay := map[string]any{"kind": kind, "bp": bp}
+			if !t1.Done() || !t2.Done() {
+				r.Violation(key+"/writer-stuck", fmt.Sprintf("a writer has not returned at the quiescent point\n%s", vk.DescribeGs(vk.LibraryGoroutines(gs, nil))), replay)
+				cancel()
+				return
+			}
+			mu.Lock()
+			_, hasX := view["x"]
+			trace := strings.Join(log, "; ")
+			mu.Unlock()
+			if _, stored := col.Get("x"); hasX && !stored {
+				r.Violation(key, fmt.Sprintf("Add(x) was inside its critical section when a seeded %s subscriber (%s) was opened; then Delete(x), Add(zz); the subscriber (reading %s) still holds x, Get(x) finds nothing; received: %s", kind, mode, map[bool]string{true: "all along", false: "only afterwards"}[bp], trace), replay)
+			}
+			cancel()
+			vk.Quiesce()
+		}
+	}
+	r.Require("join-while-writer-holds-lock-scenarios", 1)
 }
 
 // zeroBodies (F7): items created with a body that has nothing set (the zero message), Values set to the zero
